@@ -25,7 +25,13 @@ A_PURE = {"fprintf", "fputc", "vfprintf", "perror", "stderr", "strerror", "strsi
           "strchr", "strcmp", "strcpy", "strlen", "strncmp", "strrchr", "__errno_location", "environ",
           "__assert_fail", "__stack_chk_fail", "_GLOBAL_OFFSET_TABLE_", "memset", "memmove", "fwrite", "fputs",
           "puts", "putc", "snprintf", "strnlen", "__memcpy_chk", "__fprintf_chk", "__vfprintf_chk", "abort",
-          "__strcpy_chk", "strncpy", "strcat", "stpcpy", "free", "strdup"}
+          "__strcpy_chk", "strncpy", "strcat", "stpcpy", "free", "strdup",
+          # pure string/character/number functions of libc: no system interface behind them
+          "strtok", "strtok_r", "strsep", "strstr", "strspn", "strcspn", "strpbrk", "strncat", "strcasecmp", "strncasecmp",
+          "memchr", "memrchr", "strtol", "strtoul", "strtoll", "strtoull", "atoi", "atol", "isalpha", "isdigit", "isalnum",
+          "isspace", "isupper", "islower", "tolower", "toupper", "__ctype_b_loc", "__ctype_tolower_loc", "__ctype_toupper_loc",
+          "sprintf", "vsnprintf", "vsprintf", "__sprintf_chk", "__snprintf_chk", "__vsnprintf_chk", "qsort", "bsearch", "abs",
+          "fflush", "stdout", "printf", "__printf_chk", "putchar", "fputs", "bcmp", "calloc", "sigemptyset", "sigaddset"}
 
 
 class HarnessError(Exception):
